@@ -93,6 +93,15 @@ func decorated() []schema {
 	return out
 }
 
+func hasPlaceholderImport(d protoreflect.FileDescriptor) bool {
+	for i := 0; i < d.Imports().Len(); i++ {
+		if d.Imports().Get(i).IsPlaceholder() {
+			return true
+		}
+	}
+	return false
+}
+
 func resolverWith(fds ...protoreflect.FileDescriptor) *protoregistry.Files {
 	r := &protoregistry.Files{}
 	for _, fd := range fds {
@@ -139,6 +148,13 @@ func runC34(c *core.Ctx) {
 					return
 				}
 				d2, err = protodesc.FileOptions{AllowUnresolvable: true}.New(p, protoregistry.GlobalFiles)
+				if err != nil && strings.Contains(err.Error(), "is not imported") && hasPlaceholderImport(d) {
+					// fixture generated by an old protoc-gen-go: its dependency is registered under another
+					// path (e.g. "proto2_20180125_92554152/test.proto"), so the import is a placeholder while
+					// the type name resolves elsewhere; such a file cannot be rebuilt against this registry
+					c.Outcome("skipped: import registered under another path (legacy fixture)")
+					return
+				}
 				if err != nil {
 					c.Violation("NewFile(ToFileDescriptorProto(d)) fails for linked file "+d.Path(), err.Error())
 					return
